@@ -1,0 +1,115 @@
+/**
+ * @file verif_hooks.h
+ *
+ * @brief Observation points for external runtime monitors
+ *
+ * With ROOT_SIM_CORE_VERIF undefined (the default) every macro in this file expands to nothing.
+ * With it defined, VH() calls rs_verif_hook(), which is NOT part of the core: the program linking
+ * the core has to provide it. Hook points only pass values; they never change core state.
+ *
+ * SPDX-License-Identifier: GPL-3.0-only
+ */
+#pragma once
+
+#ifdef ROOT_SIM_CORE_VERIF
+
+#include <stdint.h>
+
+enum verif_hook_point {
+	VH_NONE = 0,
+	/* lp/process.c */
+	VH_SEND,           /* p=msg a=1 if remote                      ScheduleNewEvent, message built, not yet visible */
+	VH_SEND_MUTED,     /* a=receiver                               ScheduleNewEvent suppressed (silent execution) */
+	VH_EXTRACT,        /* p=msg                                    process_msg got a message from the queue */
+	VH_PROC_FLAG,      /* p=msg a=previous flags                   after +PROCESSED */
+	VH_FWD_BEGIN,      /* p=msg a=lp                               before the dispatcher call of a forward execution */
+	VH_FWD_END,        /* p=lp  a=msg                              after the event was pushed in the history */
+	VH_ANTI_LOCAL,     /* p=msg a=previous flags                   after +ANTI on a locally sent message */
+	VH_ANTI_REMOTE,    /* p=msg                                    before the remote anti-message is sent */
+	VH_UNDO,           /* p=msg a=previous flags                   after -PROCESSED on an undone event */
+	VH_RB_BEGIN,       /* p=lp  a=past_i                           do_rollback entered */
+	VH_RB_END,         /* p=lp  a=past_i b=restored ref_i          do_rollback done (after coasting forward) */
+	VH_SILENT_BEGIN,   /* p=lp  a=from b=to */
+	VH_SILENT,         /* p=msg a=history index                    one silent re-execution (before the dispatcher call) */
+	VH_SILENT_END,     /* p=lp */
+	VH_CKPT,           /* p=lp  a=ref_i                            checkpoint taken */
+	VH_BRANCH,         /* p=msg a=enum verif_branch                which handling branch process_msg took */
+	VH_LP_INIT_DONE,   /* p=lp */
+	VH_LP_FINI,        /* p=lp                                     process_lp_fini entered (before LP_FINI dispatch) */
+	VH_FINI_HIST,      /* p=tagged history entry a=index b=lp      entry seen by process_lp_fini, before any release */
+	/* gvt/fossil.c */
+	VH_FOSSIL_BEGIN,   /* p=lp  a=gvt bits */
+	VH_FOSSIL_ENTRY,   /* p=tagged history entry a=index b=lp      history entry about to be released */
+	VH_FOSSIL_END,     /* p=lp  a=entries truncated b=gvt bits */
+	/* gvt/gvt.c */
+	VH_GVT_STAGE,      /* a=enum thread_phase*16+node_phase b=site  a step of the reduction state machine was taken */
+	VH_GVT_INITIATE,   /*                                          a new round is being started by the master */
+	VH_GVT_CTRL,       /* a=control code                           control message consumed */
+	VH_DRAIN,          /* a=sub-stage of gvt_msg_drain */
+	/* parallel/parallel.c */
+	VH_STAGE,          /* a=enum verif_stage                       worker thread life-cycle */
+	VH_GVT_VALUE,      /* a=gvt bits                               a new GVT was handed to this thread (before its consumers) */
+	VH_GVT_CONSUMED,   /* a=gvt bits                               all consumers of that GVT ran */
+	VH_LOOP_TAIL,      /*                                          end of one main-loop iteration */
+	/* gvt/termination.c */
+	VH_TERM_VOTE,      /* a=gvt bits                               this thread voted for termination */
+	VH_TERM_LP,        /* p=lp a=1 set/0 reset b=time bits         per-LP termination time changed */
+	/* datatypes/msg_queue.c */
+	VH_Q_INSERT,       /* p=msg a=destination thread               msg_queue_insert entered */
+	VH_Q_CAS_GAP,      /* p=msg                                    between the load of the list head and the CAS */
+	VH_Q_CAS_RETRY,    /* p=msg                                    CAS failed, retrying */
+	VH_Q_SWAP,         /* p=list head (may be NULL)                 buffer detached by the consumer */
+	VH_Q_PEEK,         /* a=time bits                              msg_queue_time_peek result */
+	VH_Q_FINI_HEAP,    /* p=msg                                    message left in the private heap at shutdown */
+	VH_Q_FINI_LIST,    /* p=msg                                    message left in the shared buffer at shutdown */
+	/* core/sync.c */
+	VH_BARRIER_SPIN,   /* a=0 up-phase 1 down-phase b=value read    inside the barrier spin loops */
+	VH_BARRIER_ENTER,  /* a=phase */
+	VH_BARRIER_EXIT,   /* a=leader */
+	/* mm/msg_allocator.c */
+	VH_MSG_ALLOC,      /* p=msg a=payload size                     buffer obtained, no field written yet */
+	VH_MSG_FREE,       /* p=msg                                    msg_allocator_free entered */
+	VH_MSG_FREE_AT_GVT,/* p=msg */
+	VH_MSG_GVT_RELEASE,/* p=msg a=gvt bits                         deferred release at a GVT */
+	/* distributed/mpi.c */
+	VH_MPI_RECV,       /* p=msg a=1 if anti                        remote message received, not yet queued */
+	VH_MPI_SEND,       /* p=msg a=1 if anti b=destination node */
+	VH_MPI_CTRL_SEND,  /* a=control code b=destination node */
+	/* mm/buddy/multi.c */
+	VH_MM_RESTORE,     /* p=mm_state a=requested ref_i b=chosen ref_i */
+	VH_MM_FOSSIL,      /* p=mm_state a=target ref_i b=returned ref_i */
+	VH_POINT_COUNT
+};
+
+enum verif_branch {
+	VB_ANTI_DROP = 1,   /* anti-message met before the event was ever processed */
+	VB_ANTI_ROLLBACK,   /* anti-message for a processed event */
+	VB_ANTI_REMOTE_FOUND,
+	VB_ANTI_REMOTE_EARLY,
+	VB_EARLY_MATCH,     /* remote event annihilated by a parked early anti-message */
+	VB_STRAGGLER
+};
+
+enum verif_stage {
+	VS_THREAD_START = 1,
+	VS_INIT_DONE,
+	VS_LOOP,
+	VS_LOOP_EXIT,
+	VS_DRAIN_DONE,
+	VS_LP_FINI_DONE,
+	VS_QUEUE_FINI_DONE,
+	VS_THREAD_DONE
+};
+
+extern void rs_verif_hook(unsigned point, const void *p, uint64_t a, uint64_t b);
+
+#define VH(point, p, a, b) rs_verif_hook((point), (const void *)(p), (uint64_t)(a), (uint64_t)(b))
+/// Bit pattern of a double, to pass timestamps through the integer hook arguments
+#define VH_BITS(d) __extension__({ double _vd = (d); uint64_t _vu; __builtin_memcpy(&_vu, &_vd, sizeof(_vu)); _vu; })
+
+#else
+
+#define VH(point, p, a, b) ((void)0)
+#define VH_BITS(d) 0
+
+#endif
